@@ -93,6 +93,8 @@ type Proxy struct {
 	counts    map[string]int // totals since Arm: "tx|bucket|kind"
 	perTx     []map[string]int
 	armed     bool
+	snapAll   bool
+	snapLabel []string
 
 	// Hook, when set, is called before every operation (scheduling point).
 	Hook func(Point)
@@ -119,6 +121,25 @@ func (p *Proxy) Arm(f *Fault, snapPath string) {
 	p.counts = map[string]int{}
 	p.perTx = nil
 	p.armed = true
+	p.snapAll = false
+}
+
+// ArmSnapAll makes the proxy take a crash image of the database file at every
+// storage operation of every write transaction (and when the transaction
+// function returned, and after commit / rollback finished).
+func (p *Proxy) ArmSnapAll(snapPath string) {
+	p.Arm(nil, snapPath)
+	p.mu.Lock()
+	p.snapAll = true
+	p.snapLabel = nil
+	p.mu.Unlock()
+}
+
+// SnapshotLabels returns, per crash image, the operation it was taken at.
+func (p *Proxy) SnapshotLabels() []string {
+	p.mu.Lock()
+	defer p.mu.Unlock()
+	return append([]string{}, p.snapLabel...)
 }
 
 // Fired reports whether the armed fault was triggered.
@@ -216,7 +237,14 @@ func (p *Proxy) op(tx *txState, bucket, kind string) (err error, forward bool) {
 	if match {
 		p.fired = true
 	}
+	snapAll := p.snapAll && tx.writable
+	if snapAll {
+		p.snapLabel = append(p.snapLabel, fmt.Sprintf("before %s#%d on %q (tx %d)", kind, ord, bucket, tx.id))
+	}
 	p.mu.Unlock()
+	if snapAll {
+		p.snapshot()
+	}
 	if match {
 		switch f.Action {
 		case "fail":
@@ -304,8 +332,12 @@ func (p *Proxy) run(writable bool, f func(diskstore.BucketManager) error) error 
 		if match {
 			p.fired = true
 		}
+		snapAll := p.snapAll && writable
+		if snapAll {
+			p.snapLabel = append(p.snapLabel, fmt.Sprintf("after TxEnd (tx %d, err=%v)", tx.id, err))
+		}
 		p.mu.Unlock()
-		if match && f.Action == "snapshot" {
+		if (match && f.Action == "snapshot") || snapAll {
 			p.snapshot()
 		}
 		if h := p.Hook; h != nil {
